@@ -1,0 +1,6 @@
+//go:build !verif
+
+package stackage
+
+// verifPoint is a no-op unless built with the `verif` tag (see verif_hooks_on.go).
+func verifPoint(string, *stack) {}
